@@ -129,33 +129,39 @@ bool hazard_eras<Traits>::guard_ptr<T, MarkedPtr>::acquire_if_equal(const concur
     order = std::memory_order_acquire;
   }
 
-  // (2) - this load operation synchronizes-with any release operation on p.
-  // we have to use acquire here to ensure that the subsequent era_clock.load
-  // sees a value >= p.construction_era
-  auto p1 = p.load(order);
-  if (p1 == nullptr || p1 != expected) {
-    reset();
-    return p1 == expected;
-  }
-
-  const auto era = era_clock.load(std::memory_order_relaxed);
-  if (he != nullptr && he->guards() == 1) {
-    he->set_era(era);
-  } else {
-    // allocate the new HE instance first, so that this guard remains unchanged in case the allocation throws
-    auto new_he = local_thread_data().alloc_hazard_era(era);
-    if (he != nullptr) {
-      he->release_guard();
+  era_t prev_era = he == nullptr ? 0 : he->get_era();
+  for (;;) {
+    // (2) - this load operation synchronizes-with any release operation on p.
+    // we have to use acquire here to ensure that the subsequent era_clock.load
+    // sees a value >= p.construction_era
+    auto p1 = p.load(order);
+    if (p1 == nullptr || p1 != expected) {
+      reset();
+      return p1 == expected;
     }
-    he = new_he;
-  }
 
-  this->ptr = p.load(std::memory_order_relaxed);
-  if (this->ptr != p1) {
-    reset();
-    return false;
+    // Same protocol as in acquire: the object is only protected if the published era is still the current
+    // one after p has been (re-)read. Comparing the re-read pointer instead is not sufficient - the object
+    // might have been reclaimed and a new object with a later construction era might have been allocated
+    // at the same address and stored in p in the meantime (ABA).
+    const auto era = era_clock.load(std::memory_order_relaxed);
+    if (era == prev_era) {
+      this->ptr = p1;
+      return true;
+    }
+
+    if (he != nullptr && he->guards() == 1) {
+      he->set_era(era);
+    } else {
+      // allocate the new HE instance first, so that this guard remains unchanged in case the allocation throws
+      auto new_he = local_thread_data().alloc_hazard_era(era);
+      if (he != nullptr) {
+        he->release_guard();
+      }
+      he = new_he;
+    }
+    prev_era = era;
   }
-  return true;
 }
 
 template <class Traits>
